@@ -27,9 +27,16 @@ class SpartanProtocol(BaseGopherProtocol):
         except UnicodeEncodeError:
             return False
 
-        # Three non-empty parts, with the third part being an integer >= 0.
+        # Three non-empty parts: a host, an absolute path, an integer >= 0.
+        # (A Gopher selector such as "/Symphony No 5" has three parts too,
+        # but its second part is no path.)
         parts = self.request.strip().split(" ")
-        return len(parts) == 3 and all(parts) and parts[2].isdigit()
+        return (
+            len(parts) == 3
+            and all(parts)
+            and parts[1].startswith("/")
+            and parts[2].isdigit()
+        )
 
     def handle(self):
         host, path, content_length = self.request.strip().split(" ")
